@@ -649,6 +649,8 @@ func (sel *Selection) Set(v val.Value) error {
 			Selection: sel,
 		},
 		Write: true,
+		// no value: the leaf is cleared (nodes are not expected to handle a write of nothing)
+		Clear: v == nil,
 		Meta:  m,
 	}
 	return sel.set(&r, &ValueHandle{Val: v})
